@@ -143,8 +143,11 @@ def argmin(ctx) -> None:
     for n in ast.walk(f.node):
         if isinstance(n, ast.Call) and dotted(n.func) == "min":
             for k in n.keywords:
-                if k.arg == "key" and isinstance(k.value, ast.Lambda):
-                    b = k.value.body
+                kv = k.value
+                if isinstance(kv, ast.Name) and kv.id in util.single_assignments(f):
+                    kv = util.single_assignments(f)[kv.id]
+                if k.arg == "key" and isinstance(kv, ast.Lambda):
+                    b = kv.body
                     key_ok = isinstance(b, ast.Subscript) and isinstance(b.slice, ast.Constant) and b.slice.value == 1
     ctx.ob("ARGMIN", "result is the arg-min", f.loc(), ok_min and key_ok,
            "the returned permutation is the first component of min(candidates, key=bandwidth)" if ok_min and key_ok else
